@@ -200,29 +200,49 @@ def oracle(sc, res, rng_seed=0):
                     fails.append(Fail("C04/multi_taper/adaptive-few-tapers",
                                       "with %d usable tapers adaptive=True differs from the fixed eigenvalue-weighted estimate" % p["K"],
                                       {"relative_deviation": e}, "equal to adaptive=False"))
-    # ---- scaling by a: one tiny and one huge power-of-two factor (a*x is exact, so the densities of the
-    # fixed-weight estimators must scale exactly), sometimes negative / imaginary / not a power of two
-    amax = float(np.max(np.abs(x))) or 1.0
-    e0 = int(np.floor(np.log2(amax)))
-    down = [p for p in (-50, -40, -27, -13) if e0 + p >= -95]
-    up = [p for p in (50, 40, 27, 13) if e0 + p <= 95]
-    alist = []
-    if down:
-        alist.append(2.0 ** down[rng_seed % len(down)])
-    if up:
-        alist.append(-(2.0 ** up[rng_seed % len(up)]) if rng_seed % 3 == 0 else 2.0 ** up[rng_seed % len(up)])
+    # ---- homogeneity: EVERY case is re-run on exact power-of-two multiples far from its own scale (2^-45 and
+    # 2^+35; a*x is exact, so the densities must scale by |a|^2 to rounding and the frequencies must not move),
+    # with a different factor per channel when there are several, sometimes negative / imaginary / -3; and an
+    # integer-dtype input is re-run as the same samples in float64
+    uni, per = S.scale_factors(x, rng_seed)
+    alist = list(uni)
+    if alist and rng_seed % 3 == 0:
+        alist[-1] = -alist[-1]
+    if alist and sc["cplx"] and rng_seed % 2:
+        alist[0] = alist[0] * 1j
     if rng_seed % 4 == 0:
         alist.append(-3.0)
-    if sc["cplx"] and rng_seed % 2:
-        alist[0] = alist[0] * 1j
+    xf = np.asarray(x, dtype=complex if sc["cplx"] else float)
     for a in alist:
-        r2 = S.run_scenario(sc, data=a * x)
+        r2 = S.run_scenario(sc, data=a * xf)
         if r2["err"] is None:
             ok, e = close_arr(psd_rows(sc, r2).real, abs(a) ** 2 * rows)
-            if not ok:
-                fails.append(Fail(key_for(sc, "scale"), "density of a*x is not |a|^2 times the density of x",
+            same_f = np.array_equal(np.asarray(r2.get("f")), np.asarray(res.get("f")))
+            if not ok or not same_f:
+                fails.append(Fail(key_for(sc, "scale"), "density of a*x is not |a|^2 times the density of x"
+                                  + ("" if same_f else " (and the frequency axis moved)"),
                                   {"a": str(a), "log2|a|": float(np.log2(abs(a))), "relative_deviation": e}, "|a|^2 scaling"))
                 break
+        else:
+            fails.append(Fail(key_for(sc, "scale"), "the estimator raises on a*x (%r) but not on x" % r2["err"],
+                              {"a": str(a)}, "|a|^2 scaling"))
+            break
+    if per is not None:
+        x2 = xf.reshape(-1, xf.shape[-1]) * per[:, None]
+        r2 = S.run_scenario(sc, data=x2.reshape(xf.shape))
+        if r2["err"] is None:
+            ok, e = close_arr(psd_rows(sc, r2).real, (per ** 2)[:, None] * rows)
+            if not ok:
+                fails.append(Fail(key_for(sc, "scale"), "scaling channel i by c_i does not scale its density by c_i^2",
+                                  {"log2 c": [float(v) for v in np.log2(per)], "relative_deviation": e}, "c_i^2 scaling per channel"))
+    if sc.get("dtype"):
+        rfl = S.run_scenario(sc, data=xf)
+        if rfl["err"] is None:
+            ok, e = close_arr(psd_rows(sc, rfl).real, rows)
+            if not ok or np.asarray(res["out"]).dtype != np.asarray(rfl["out"]).dtype:
+                fails.append(Fail("C04/%s/int-dtype" % est, "integer-dtype samples give another density than the same samples in float64",
+                                  {"dtype": sc["dtype"], "out_dtype": str(np.asarray(res["out"]).dtype), "relative_deviation": e},
+                                  "identical result"))
     # ---- memory layout: the same values Fortran-ordered / strided / as a transposed view
     if sc.get("layout") not in (None, "C"):
         rc = S.run_scenario(variant(sc, layout="C"))
@@ -251,67 +271,126 @@ def oracle(sc, res, rng_seed=0):
 
 
 def analyzer_oracle(ctx, n_cases):
-    """differential validation (not proof): the SpectralAnalyzer front end returns densities that obey
-    Parseval like the algorithms it wraps (Fs taken from the series)"""
+    """differential validation (not proof) of the SpectralAnalyzer front end (Fs taken from the series): its
+    densities obey Parseval like the algorithms it wraps; every case is re-run on exact power-of-two multiples
+    far from its own scale (uniform and per channel) and, for integer samples, as the same samples in float64"""
     import nitime.timeseries as ts
     from nitime.analysis import SpectralAnalyzer
     rng = ctx.rng
     done = 0
+
+    def get(x, fs, attr):
+        t = ts.TimeSeries(x, sampling_rate=fs)
+        f, p = getattr(SpectralAnalyzer(t), attr)
+        return np.asarray(f), np.asarray(p), float(t.sampling_rate)
+
+    def rp(attr, n, lead, cplx, fs, x, **kw):
+        d = {"entry_point": "nitime.analysis.SpectralAnalyzer." + attr, "n": n, "lead": lead, "cplx": cplx, "Fs": fs,
+             "dtype": str(np.asarray(x).dtype),
+             "data": [float(v).hex() for v in np.asarray(x, dtype=complex if cplx else float).view(float).ravel()]}
+        d.update(kw)
+        return d
+
     for i in range(n_cases):
         n = rng.choice([64, 65, 96, 127, 128])
-        M = rng.choice([1, 2, 3])
-        cplx = rng.random() < 0.25
+        lead = rng.choice([[1], [2], [3], [2], [2, 2], [2, 3]])
+        M = int(np.prod(lead))
+        cplx = rng.random() < 0.2
         fs = rng.choice([1.0, 2.0, 250.0, 1000.0, 0.5])
-        x = S.gen_signal(rng, [M], n, cplx)
-        t = ts.TimeSeries(x, sampling_rate=fs)
-        Fs = float(t.sampling_rate)
-        power = [float(p) for p in S.frac_power(x)]
-        for attr in ("periodogram", "spectrum_multi_taper", "psd"):
-            if cplx and attr == "spectrum_multi_taper":
-                pass
+        x = S.gen_signal(rng, lead, n, cplx)
+        is_int = (not cplx) and i % 3 == 0
+        if is_int:
+            sc0 = {"est": "periodogram", "shape": list(lead) + [n], "cplx": False}
+            x = S.sc_data(S.force_int(rng, sc0))
+        xf = np.asarray(x, dtype=complex if cplx else float)
+        x2 = xf.reshape(M, n)
+        power = [float(p) for p in S.frac_power(xf)]
+        uni, per = S.scale_factors(xf, i)
+        for attr in ("periodogram", "spectrum_multi_taper", "psd", "cpsd"):
+            if attr == "cpsd" and len(lead) != 1:
+                continue
             try:
-                f, p = getattr(SpectralAnalyzer(t), attr)
+                f, p, Fs = get(x, fs, attr)
             except Exception as e:  # noqa
                 if not S.err_in_dpss(e):
                     ctx.report_fail(Fail("C04/SpectralAnalyzer.%s/exception" % attr, "analyzer raised %r" % e, repr(e), "a spectrum",
-                                         {"entry_point": "nitime.analysis.SpectralAnalyzer." + attr, "n": n, "M": M, "cplx": cplx, "Fs": fs,
-                                          "data": [float(v).hex() for v in np.asarray(x).view(float).ravel()]}))
+                                         rp(attr, n, lead, cplx, fs, x)))
                 continue
             done += 1
-            p = np.asarray(p).reshape(M, -1)
+            key = "C04/SpectralAnalyzer.%s/" % attr
+            # ---- Parseval
+            want = None
+            if attr == "cpsd":
+                pm = p.reshape(M, M, -1) if M > 1 else p.reshape(1, 1, -1)
+                prow = np.einsum("iik->ik", pm)
+            else:
+                prow = p.reshape(M, -1)
             if attr == "periodogram":
                 nb, want = n, power
             elif attr == "spectrum_multi_taper":
-                an = SpectralAnalyzer(t)
-                if an.BW is not None:
-                    continue
-                sc = {"est": "multi_taper_psd", "Fs": Fs.hex(), "NFFT": None, "sides": "default",
-                      "adaptive": bool(an.adaptive), "low_bias": bool(an.low_bias)}
-                if sc["adaptive"]:
-                    continue
-                S.set_data(sc, x)
-                r = S.run_scenario(sc)
-                if r["err"] is not None:
-                    continue
-                wp = mt_expected_power(sc, r)
-                if wp is None:
-                    continue
-                nb, want = n, [float(v) for v in wp]
+                an = SpectralAnalyzer(ts.TimeSeries(x, sampling_rate=fs))
+                if an.BW is None and not an.adaptive:
+                    sc = {"est": "multi_taper_psd", "Fs": Fs.hex(), "NFFT": None, "sides": "default",
+                          "adaptive": False, "low_bias": bool(an.low_bias)}
+                    S.set_data(sc, x2)
+                    r = S.run_scenario(sc)
+                    wp = mt_expected_power(sc, r) if r["err"] is None else None
+                    if wp is not None:
+                        nb, want = n, [float(v) for v in wp]
             else:
                 nb = 64
                 want = []
-                for row in x:
+                for row in x2:
                     sc = {"est": "welch", "method": {"this_method": "welch", "NFFT": 64, "n_overlap": 32}}
                     S.set_data(sc, row)
                     want += welch_expected_power(sc, {"x": row})
-            got = p.real.sum(axis=-1) * Fs / nb
-            for ch in range(M):
-                if S.rel_err(got[ch], want[ch]) > REL:
-                    ctx.report_fail(Fail("C04/SpectralAnalyzer.%s/parseval" % attr,
-                                         "analyzer density does not integrate to the mean power", float(got[ch]), float(want[ch]),
-                                         {"entry_point": "nitime.analysis.SpectralAnalyzer." + attr, "n": n, "M": M, "cplx": cplx, "Fs": fs,
-                                          "data": [float(v).hex() for v in np.asarray(x).view(float).ravel()]}))
+            if want is not None:
+                got = prow.real.sum(axis=-1) * Fs / nb
+                for ch in range(M):
+                    if S.rel_err(got[ch], want[ch]) > REL:
+                        ctx.report_fail(Fail(key + "parseval", "analyzer density does not integrate to the mean power",
+                                             float(got[ch]), float(want[ch]), rp(attr, n, lead, cplx, fs, x)))
+                        break
+            # ---- homogeneity at far scales, uniform and per channel; frequencies unchanged
+            for a in uni:
+                try:
+                    f2, p2, _ = get(a * xf, fs, attr)
+                except Exception as e:  # noqa
+                    ctx.report_fail(Fail(key + "scale", "analyzer raises on a*x (%r) but not on x" % e, {"a": str(a)},
+                                         "|a|^2 scaling", rp(attr, n, lead, cplx, fs, x, a=str(a))))
                     break
+                ok, e = close_arr(p2, abs(a) ** 2 * p) if p2.shape == p.shape else (False, float("inf"))
+                if not ok or not np.array_equal(f2, f):
+                    ctx.report_fail(Fail(key + "scale", "analyzer density of a*x is not |a|^2 times the density of x",
+                                         {"a": str(a), "relative_deviation": e, "out_dtype": str(p2.dtype)}, "|a|^2 scaling",
+                                         rp(attr, n, lead, cplx, fs, x, a=str(a))))
+                    break
+            if per is not None:
+                try:
+                    f2, p2, _ = get((x2 * per[:, None]).reshape(xf.shape), fs, attr)
+                    if attr == "cpsd":
+                        wantp = pm * per[:, None, None] * per[None, :, None]
+                        ok, e = close_arr(p2.reshape(pm.shape), wantp)
+                    else:
+                        ok, e = close_arr(p2.reshape(M, -1), (per ** 2)[:, None] * prow)
+                    if not ok:
+                        ctx.report_fail(Fail(key + "scale", "scaling channel i by c_i does not scale the analyzer's spectra by c_i c_j",
+                                             {"log2 c": [float(v) for v in np.log2(per)], "relative_deviation": e}, "c_i c_j scaling",
+                                             rp(attr, n, lead, cplx, fs, x)))
+                except Exception as e:  # noqa
+                    ctx.report_fail(Fail(key + "scale", "analyzer raises on per-channel scaled data: %r" % e, repr(e), "c_i c_j scaling",
+                                         rp(attr, n, lead, cplx, fs, x)))
+            # ---- integer samples vs the same samples in float64
+            if is_int:
+                try:
+                    f2, p2, _ = get(xf, fs, attr)
+                    ok, e = close_arr(p2, p) if p2.shape == p.shape else (False, float("inf"))
+                    if not ok or p2.dtype != p.dtype:
+                        ctx.report_fail(Fail(key + "int-dtype", "integer-dtype samples give another spectrum than the same samples in float64",
+                                             {"in_dtype": str(x.dtype), "out_dtype": str(p.dtype), "relative_deviation": e},
+                                             "identical result", rp(attr, n, lead, cplx, fs, x)))
+                except Exception as e:  # noqa
+                    pass
     ctx.extra["analyzer_differential_checks"] = done
 
 
@@ -352,6 +431,12 @@ def gen_all(ctx):
         scs.append(S.gen_scenario(rng, "multi_taper_psd", nmax=32 if q else 96, max_ch=rng.choice([1, 2, 3, 4]) if q else 5))
     for _ in range(ctx.scale(12, 100)):
         scs.append(S.gen_scenario(rng, "periodogram_csd", nmax=24 if q else 64, max_ch=4 if q else 5))
+    # integer-dtype samples (incl. two leading dimensions)
+    plan_i = [("periodogram", [2]), ("multi_taper_psd", [2]), ("multi_taper_psd", [2, 2]), ("periodogram_csd", [2]),
+              ("multi_taper_csd", [2]), ("periodogram", [2, 3])]
+    for i in range(ctx.scale(6, 30)):
+        est, lead = plan_i[i % len(plan_i)]
+        scs.append(S.runnable(lambda: S.force_int(rng, S.gen_scenario(rng, est, nmax=14 if q else 40, lead=lead, layout="C"))))
     # multi_taper_csd as a PSD route (directly and through get_spectra)
     for _ in range(ctx.scale(4, 40)):
         sc = S.gen_scenario(rng, "multi_taper_csd", nmax=16 if q else 40, max_ch=2 if q else 4)
